@@ -297,8 +297,19 @@ def run_ks(prop, cfg, tier, seed, log, replay_ids=None):
         if p.returncode not in (0, None) and not res["harness_error"]:
             res["ok"] = False
             res["harness_error"] = "harness exited %s: %s" % (p.returncode, tail_of(goe.name))
+    died = []
     if res["harness_error"]:
-        return res
+        # Keep what the harness printed before it died: the last case it started is the best
+        # candidate for a failing input (a panic inside a goroutine of the real code cannot be
+        # recovered by the harness).
+        for s, p, gof, goe in procs:
+            if p.returncode not in (0, None):
+                try:
+                    lines = open(os.path.join(rundir, "go.%d.txt" % s), errors="replace").read().split("\n")
+                except OSError:
+                    lines = []
+                last = next((l for l in reversed(lines) if l.startswith("case ")), None)
+                died.append((s, last, tail_of(goe.name, 1500)))
     dprocs = []
     for s in range(shards):
         gi = open(os.path.join(rundir, "go.%d.txt" % s))
@@ -315,8 +326,6 @@ def run_ks(prop, cfg, tier, seed, log, replay_ids=None):
         if p.returncode != 0 and not res["harness_error"]:
             res["ok"] = False
             res["harness_error"] = "lean driver exited %s: %s" % (p.returncode, tail_of(le.name, 2000))
-    if res["harness_error"]:
-        return res
     for s in range(shards):
         pre = "%d:" % s if shards > 1 else ""
         g = parse_stream(open(os.path.join(rundir, "go.%d.txt" % s)).read(), pre)
@@ -344,6 +353,12 @@ def run_ks(prop, cfg, tier, seed, log, replay_ids=None):
         res["samples"].append({"case": cases[cid][0][:600],
                                "impl": [x[:400] for x in go_d.get("obs", {}).get(cid, [])][:3],
                                "model": [x[:400] for x in lean_d.get("obs", {}).get(cid, [])][:3]})
+    for s, last, err in died:
+        pre = "%d:" % s if shards > 1 else ""
+        if last:
+            sp = last.split(" ", 2)
+            res["s_hits"].append({"id": pre + sp[1], "case": sp[2] if len(sp) > 2 else "", "impl": ["harness process died while running this case: " + err[-600:]],
+                                  "expected": ["no panic / hang"], "what": "crash", "kf": []})
     # crashes reported by the harness: "crash <id> <what>"
     for cid, lines in go_d.get("crash", {}).items():
         if cid in cases or replay_ids is None:
